@@ -606,7 +606,7 @@ def parse_rules(spec):
 
 SIG_START = ('requires', 'ensures', 'decreases', 'returns', 'recommends', 'no_unwind', 'opens_invariants', 'default_ensures')
 LOOP_START = ('invariant', 'invariant_except_break', 'ensures', 'decreases')
-STMT_START = ('proof', 'assert', 'let', 'broadcast', 'reveal', 'reveal_with_fuel', 'assert_by', 'assert_forall_by')
+STMT_START = ('proof', 'assert', 'let', 'broadcast', 'reveal', 'reveal_with_fuel', 'assert_by', 'assert_forall_by', 'hide')
 
 
 def check_ghost(kind, text, where):
